@@ -16,7 +16,7 @@ import (
 // that judges a canonical program also judges its renamed form.
 
 var (
-	pkgNamePool  = []string{"err", "err2", "cleanup", "cleanup2", "config", "foo", "foo", "foo2", "bar", "context", "fmt", "errors", "strconv", "v1", "v2", "go_", "typ", "select_", "ünï", "pkg", "main2", "arg", "v", "app2"}
+	pkgNamePool  = []string{"init", "err", "err2", "cleanup", "cleanup2", "config", "foo", "foo", "foo2", "bar", "context", "fmt", "errors", "strconv", "v1", "v2", "go_", "typ", "select_", "ünï", "pkg", "main2", "arg", "v", "app2"}
 	typeNamePool = []string{"Err", "Error", "Cleanup", "Config", "Foo", "Foo2", "Foo_2", "Bar", "Context", "Type", "Func", "Var", "Go", "Select", "Default", "Range", "String", "Int", "Bool", "Nil", "True", "Len", "New", "Make", "Panic", "Any", "Arg", "V", "Ünï", "Ж", "Wire", "Pkg", "App", "Fmt", "Errors", "Strconv", "HTTPServer", "DB", "Err2", "Cleanup2", "Map", "Chan", "Interface", "Struct", "Package", "Import", "Return", "Defer", "Switch", "Case", "If", "For", "Else", "Break", "Const", "Goto", "Fallthrough", "Continue"}
 	rootTypePool = []string{"err", "cleanup", "foo", "foo2", "config", "arg", "v", "t", "context_", "err_2", "cleanup_"}
 	funcNamePool = []string{"New", "NewFoo", "Provide", "Open", "Err", "Cleanup", "Make", "Build", "Get", "Default", "Foo", "Init", "Wire"}
@@ -120,7 +120,8 @@ func ApplyNames(t *rapid.T, s *Spec) {
 	for pi := 1; pi < len(s.Pkgs); pi++ {
 		name := s.Pkgs[pi].Name
 		alias := ""
-		if nameCount[name] > 1 || usedAlias[name] || name == s.Pkgs[0].Name && false {
+		if nameCount[name] > 1 || usedAlias[name] || name == "init" || name == s.Pkgs[0].Name && false {
+			// (a package called init can only be imported under another name)
 			alias = fmt.Sprintf("%sx%d", strings.TrimRight(name, "_"), pi)
 		} else if n.pct(20, "alias") {
 			alias = rapid.SampledFrom([]string{"p", "q", "lib", "dep", "foo3", "err3", "x"}).Draw(t, "aliasname") + fmt.Sprint(pi)
@@ -328,7 +329,7 @@ func ApplyNames(t *rapid.T, s *Spec) {
 			r := []rune(d.Name)
 			r[0] = unicode.ToLower(r[0])
 			ln := string(r)
-			if ln != d.Name && !IsKeyword(ln) {
+			if ln != d.Name && !IsKeyword(ln) && ln != "init" {
 				add(fmt.Sprintf("var %s = 0", ln), ln)
 			}
 		}
